@@ -38,7 +38,7 @@ fn note_current(ctx: &Ctx, case: &GenCase) {
 }
 
 pub fn fuel_for(c: &GenCase) -> u64 {
-    3 * (c.min_opcodes.max(c.max_opcodes) as u64) + 8
+    (3 * (c.min_opcodes.max(c.max_opcodes) as u64) + 8) * (1 + c.prior_calls as u64)
 }
 
 type Job = (GenCase, std::sync::mpsc::Sender<Result<Vec<u8>, Failure>>);
